@@ -513,7 +513,7 @@ class FactBase:
         for raw in d['enums']:
             self.enums.setdefault(S[raw['name']], raw['consts'])
         for raw in d['vars']:
-            n = S[raw['name']]
+            n = strip_targs(S[raw['name']])
             if n not in self.vars:
                 self.vars[n] = dict(name=n, t=S[raw['t']], file=S[raw['file']], line=raw['line'],
                                     tls=raw.get('tls', 0), const=raw.get('const', 0), member=raw.get('member', 0),
